@@ -114,7 +114,11 @@ func TestC32_MultiNodePostings(t *testing.T) {
 	rec := stats.For("C32").Meta("exploration",
 		"large corpus: 460-700 distinct docs over 22-28 shared words plus 0-6 words of their own each in 2-3 committed transactions so that the postings store exceeds one B-tree node; every shared word plus 4 multi-term queries, plus (chosen by probing the postings store through the public B-tree API) up to 40 terms whose scan starts on a key before the prefix; same oracle and non-trivial rule",
 		"tokens of documents and queries come from the package's exported SimpleTokenizer (not the subject)")
+	bud := newBudget()
 	rapid.Check(t, func(t *rapid.T) {
+		if bud.spent(rec) {
+			return
+		}
 		c, postings := genBigCase(t)
 		infos, advanced := runCase(t, c, true)
 		nTx := len(c.Cuts) - 1
